@@ -32,13 +32,14 @@ inductive DExc
   | responseError (status : Int)
   | xmlParseError
   | valueError                               -- raw ValueError from int()/float()/parse_date_time
+  | raw (e : Upnp.C08.Err)                   -- any other exception out of a coercer (none exists: `conversion_total`)
   | unmodelled (why : String)
 deriving Repr, DecidableEq
 
 inductive Outcome
   | ret (args : List (Str × PyVal))
   | exc (e : DExc)
-deriving Repr
+deriving Repr, DecidableEq
 
 /-- all `Fault` children of `Body` descendants, in document order
     (`xml.find(".//soap_envelope:Body/soap_envelope:Fault")` is the head) -/
@@ -49,7 +50,7 @@ def faults (x : Xml) : List Xml :=
 def faultCode : Option Str → Option (Option Int)
   | none => some none
   | some [] => some none
-  | some s => (pyInt? s).map some
+  | some s => (Upnp.C08.pyInt? s).map some
 
 /-- `_parse_fault`: `none` = returns normally -/
 def parseFault (x : Xml) (status : Option Int) : Option DExc :=
@@ -86,8 +87,7 @@ def readOutArgs (O : Oracles) (a : ActionDecl) : List Xml → List (Str × PyVal
       match coercePython O d.var.row (c.text.getD []) with
       | .ok v => readOutArgs O a r (dictSet acc c.tag v)
       | .error .valueError => .error .valueError
-      | .error (.unmodelled w) => .error (.unmodelled w)
-      | .error _ => .error (.unmodelled "coerce")
+      | .error e => .error (.raw e)
 
 def responseTag (a : ActionDecl) : Str := Xml.clark a.serviceType (a.name ++ "Response".toList)
 
@@ -134,6 +134,7 @@ def DExc.cls : DExc → String
   | .responseError _ => "UpnpResponseError"
   | .xmlParseError => "UpnpXmlParseError"
   | .valueError => "RAW:ValueError"
+  | .raw e => errTok e
   | .unmodelled w => "UNMODELLED:" ++ w
 
 end Upnp.C07
